@@ -103,6 +103,19 @@ Theorem C18_fold_spec :
   = fold_left g (col d j cs ++ (if Nat.ltb j (length r) then [nth j r d] else [])) (nth j acc d).
 Proof. exact @iter_fold_spec. Qed.
 
+(* Iter::fold_n (and the tail of fold_n_unroll): N accumulators, accumulator i updated by an arbitrary vector
+   function f_i.  The result is, per accumulator, the masked single-accumulator fold of C18_fold_spec: the
+   zero-padded lanes of the tail never enter any accumulator, whether the reduction is a sum, a min or a max *)
+Theorem C18_fold_n_spec :
+  forall (E : Type) (pad : E) (lanes : nat) (fs : list (list E -> list E -> list E)) (accs : list (list E)) (xs : list E),
+  length fs = length accs ->
+  iter_fold_n pad lanes (cwv fs) accs xs
+  = map (fun p : (list E -> list E -> list E) * list E => iter_fold pad lanes (fst p) (snd p) xs) (combine fs accs).
+Proof. exact @iter_fold_n_componentwise. Qed.
+Theorem C18_fold_n_model :
+  forall ty unroll opk lanes xs, model_slice ty 7 unroll opk lanes xs = model_slice ty 5 unroll opk lanes xs.
+Proof. exact model_fold_n_is_three_folds. Qed.
+
 (* ---- scalar definitions ---- *)
 Theorem C18_lane_ops_in_range :
   forall ty op k x y z, int_ty ty -> value_op op = true ->
